@@ -1,6 +1,6 @@
 (* C17, the sort itself. `order_buffer.sort_by(|a, _b| if a is sell-side {Less} else {Greater})` uses a comparator that looks only at its first argument — not a total order, so sort_by's contract says nothing and the result is whatever the implementation does. Model/Sort.v is a function-by-function transcription of the implementation the installed toolchain (rustc 1.95.0) runs: insertion_sort_shift_left up to 20 elements, driftsort above (run detection, powersort merge tree, lazy logical merges, merge up/down through the scratch buffer, stable quicksort with median-of-3 / recursive-median pivots and the equal-partition branch, small_sort_general with sort4_stable / bidirectional_merge, the panic on a detected order violation), generic in the element type, the comparator and size_of::<T>() (which selects scratch size and small-sort path). It was validated against the real binary on 32 075 inputs (lengths 0..70 densely, up to 120 000; nine comparator kinds including inconsistent ones that make the real sort panic; seven element types) with no difference, and every check run compares the exact admission order of every batch with it (aspect sort_exact). Statements only; all for `is_less a _ := key a` with an arbitrary key, every element type, EVERY length. All closed under the global context. *)
 From Coq Require Import ZArith NArith List Bool String Permutation Arith.
-From Alator Require Import Model.Sort Model.Exchange Proofs.SortProofs Proofs.SortExchange.
+From Alator Require Import Model.Sort Model.Exchange Model.ExchangeStd Proofs.SortProofs Proofs.SortExchange.
 Import ListNotations.
 
 (* Whatever the sort returns is a permutation of its input: the admitted set is exactly the submitted set. *)
@@ -66,7 +66,7 @@ Theorem c17s_run_std_refines :
            (is_sell : Ord -> bool) (decide : entry Ord -> Qt -> action Ord T) 
            (sz : N),
          (0 < sz)%N ->
-         forall (ops_std : list op_std) (s : exch Ord T),
+         forall (ops_std : list (op_std Ord Qt)) (s : exch Ord T),
          exists ops : list (op Ord Qt),
            map erase ops = ops_std /\
            run asset_of sym_of is_sell decide s ops =
@@ -79,7 +79,7 @@ Theorem c17s_run_std_never_rejects :
            (is_sell : Ord -> bool) (decide : entry Ord -> Qt -> action Ord T) 
            (sz : N),
          (0 < sz)%N ->
-         forall (ops_std : list op_std) (s : exch Ord T),
+         forall (ops_std : list (op_std Ord Qt)) (s : exch Ord T),
          ~ In OutBadOracle (snd (run_std asset_of sym_of is_sell decide sz s ops_std)).
 Proof. exact @run_std_no_bad_oracle. Qed.
 
